@@ -80,8 +80,24 @@ fn plan() -> impl Strategy<Value = Plan> {
             if url.path.eq_ignore_ascii_case("/provision") {
                 url.path = "/provisio".into();
             }
-            Plan { rec: Rec { uid_sel, helper_sel, is_root: matches!(dest, DestSel::WireServer | DestSel::GaPlugin) || uid_sel == 0, dest }, method, url, bind, repeat, concurrent }
+            Plan { rec: Rec { uid_sel, helper_sel, is_root: matches!(dest, DestSel::WireServer | DestSel::GaPlugin) || uid_sel == 0, dest }, method, url, bind, repeat, concurrent: concurrent || repeat >= 100 }
         })
+}
+
+/// histories whose first plan is a burst of 150-250 simultaneous connections (more requests in flight than any queue inside the agent holds)
+pub fn storm_strategy() -> impl Strategy<Value = Case> {
+    (strategy(), 150u8..=250, any::<bool>()).prop_map(|(mut c, n, enforce)| {
+        c.plans[0].repeat = n;
+        c.plans[0].concurrent = true;
+        // the burst is a burst of DENIALS: IMDS under a deny-everything rule set in enforce or audit mode
+        c.plans[0].rec.dest = DestSel::Imds;
+        c.plans[0].bind = gen::Bind { priv_sel: None, ident_sel: None };
+        c.imds = Some(
+            GDoc { mode: if enforce { "enforce" } else { "audit" }.into(), default_access: "deny".into(), id: String::new(), rules_present: true, privileges: Some(vec![]), roles: Some(vec![]), identities: Some(vec![]), assignments: Some(vec![]) }
+                .with_content_id(),
+        );
+        c
+    })
 }
 
 pub fn strategy() -> impl Strategy<Value = Case> {
@@ -94,7 +110,7 @@ pub fn strategy() -> impl Strategy<Value = Case> {
         .prop_map(|(ws, imds, hostga, plans)| Case { ws, imds, hostga, plans })
 }
 
-pub const RULE: &str = "generator: one rule set (or none) per endpoint with unique names, each in a generated mode; a history of 1-7 request plans, each = caller (uid from the generated passwd, helper process; elevated for WireServer/HostGAPlugin so that denials come from the rules) (two pairs of helper processes share an executable and differ only in their command line) x method x URL (mostly bound to the destination's rule set, no duplicate query keys) repeated 1-11 times, sequentially or concurrently on separate connections. oracle: per request - enforce+deny => 403 and zero upstream bytes; audit+deny => relayed to the recorded destination with status 200; disabled/allowed => relayed; after the history the reference multiset denials[(user, destination ip, port, executable, command line, '403 Forbidden')] equals get_all_failed_connection_summary() (keys and counts) and the failedAuthenticateSummary of the status.json written by a real ProxyAgentStatusTask; one audit-denied request per case is re-sent with the rule set disabled and the two upstream requests must be equal except for the date value and MAC. non-trivial: history with >= 2 identical denials and denials from >= 2 callers in audit or enforce mode; distinct by hash of the case.";
+pub const RULE: &str = "generator: one rule set (or none) per endpoint with unique names, each in a generated mode; a history of 1-7 request plans, each = caller (uid from the generated passwd, helper process; elevated for WireServer/HostGAPlugin so that denials come from the rules) (two pairs of helper processes share an executable and differ only in their command line) x method x URL (mostly bound to the destination's rule set, no duplicate query keys) repeated 1-11 times, sequentially or concurrently on separate connections, or (second engine, 3% of the cases) with the first plan as a burst of 150-250 simultaneous denied connections (all opened, then all requests written, then all responses read), followed by the same number of denials handed to AgentStatusSharedState::add_one_failed_connection_summary by concurrent tasks of the agent's runtime. oracle: per request - enforce+deny => 403 and zero upstream bytes; audit+deny => relayed to the recorded destination with status 200; disabled/allowed => relayed; after the history the reference multiset denials[(user, destination ip, port, executable, command line, '403 Forbidden')] equals get_all_failed_connection_summary() (keys and counts) and the failedAuthenticateSummary of the status.json written by a real ProxyAgentStatusTask; one audit-denied request per case is re-sent with the rule set disabled and the two upstream requests must be equal except for the date value and MAC. non-trivial: history with >= 2 identical denials and denials from >= 2 callers in audit or enforce mode; distinct by hash of the case.";
 
 type Key = (String, String, u16, String, String, String);
 
@@ -163,8 +179,34 @@ pub fn eval(rig: &Rig, st: &StatusTask, case: &Case, stats: &mut Stats) -> Outco
         let wire = crate::rawhttp::request_head(&plan.method, &target, &[("Host".into(), b"h".to_vec()), ("Metadata".into(), b"true".to_vec())]);
         let n = plan.repeat.max(1) as usize;
         total_requests += n as u64;
+        if n >= 100 {
+            stats.class("plan:burst-of-150-250-simultaneous-connections");
+        }
         let run_one = || exchange(rig, Some(&plan.rec), &wire, &plan.method);
-        let observations: Vec<Result<crate::props::c01::Observed, String>> = if plan.concurrent && n > 1 {
+        let observations: Vec<Result<crate::props::c01::Observed, String>> = if n >= 100 {
+            // a burst: all connections are opened first, then every request is written before any response is read,
+            // so that all of them are in flight inside the agent at the same moment
+            let entry = rig.entry_of(&plan.rec);
+            let mut conns = Vec::new();
+            let mut out: Vec<Result<crate::props::c01::Observed, String>> = Vec::new();
+            for _ in 0..n {
+                match rig.open(Some(entry), 0) {
+                    Ok(c) => conns.push(c),
+                    Err(e) => out.push(Err(e)),
+                }
+            }
+            let sends: Vec<Option<String>> = conns.iter_mut().map(|c| c.send(&wire).err().map(|e| e.to_string())).collect();
+            for (mut c, send_err) in conns.into_iter().zip(sends) {
+                let o = match c.read(&plan.method, std::time::Duration::from_secs(30)) {
+                    Ok(r) => crate::props::c01::Observed { status: Some(r.status), delta: Default::default(), requests: vec![], client_error: None, response: Some(r) },
+                    Err(e) => crate::props::c01::Observed { status: None, delta: Default::default(), requests: vec![], client_error: Some(format!("{:?} (send error: {:?})", e, send_err)), response: None },
+                };
+                crate::rawhttp::close_abortive(c.stream);
+                out.push(Ok(o));
+            }
+            let _ = rig.mock.take_requests();
+            out
+        } else if plan.concurrent && n > 1 {
             // upstream byte attribution is per case here: concurrent exchanges share the counters, so only statuses are checked per request
             std::thread::scope(|sc| {
                 let hs: Vec<_> = (0..n).map(|_| sc.spawn(run_one)).collect();
@@ -218,6 +260,44 @@ pub fn eval(rig: &Rig, st: &StatusTask, case: &Case, stats: &mut Stats) -> Outco
                 }
             }
         }
+    }
+    // burst cases: the same number of denials handed to the recording API at once, the way the request
+    // handlers do it (tasks of the agent's runtime, each awaiting its own call; a failed call is only logged)
+    if case.plans[0].repeat >= 100 {
+        let k = case.plans[0].repeat as usize;
+        let handles: Vec<_> = (0..k)
+            .map(|i| {
+                let a = agent_status.clone();
+                rig.rt.spawn(async move {
+                    let summary = azure_proxy_agent::proxy::proxy_summary::ProxySummary {
+                        id: i as u128,
+                        method: "GET".into(),
+                        url: "/burst".into(),
+                        clientIp: "127.0.0.1".into(),
+                        clientPort: 1,
+                        ip: "169.254.169.254".into(),
+                        port: 80,
+                        userId: 4242,
+                        userName: "burst-user".into(),
+                        userGroups: vec![],
+                        processFullPath: "/burst/exe".into(),
+                        processCmdLine: "exe --burst".into(),
+                        runAsElevated: false,
+                        responseStatus: "403 Forbidden".into(),
+                        elapsedTime: 1,
+                        errorDetails: String::new(),
+                    };
+                    let _ = a.add_one_failed_connection_summary(summary).await;
+                })
+            })
+            .collect();
+        rig.rt.block_on(async {
+            for h in handles {
+                let _ = h.await;
+            }
+        });
+        want.insert(("burst-user".into(), "169.254.169.254".into(), 80, "/burst/exe".into(), "exe --burst".into(), "403 Forbidden".into()), k as u64);
+        stats.class("burst:denials-handed-to-the-recording-api-at-once");
     }
     let callers: std::collections::BTreeSet<(String, String)> = want.keys().map(|k| (k.0.clone(), k.3.clone())).collect();
     if identical_denials && callers.len() >= 2 {
